@@ -3,6 +3,7 @@ package main
 // Execution of packet-level operations against the real code (in-process).
 
 import (
+	"reflect"
 	"fmt"
 	"strconv"
 	"strings"
@@ -465,6 +466,11 @@ func execPacketOp(ts []string) (string, bool) {
 		return execHdr(unhx(ts[1]), unhx(ts[2])), true
 	case "encresp":
 		return execEncResp(ts[1:]), true
+	case "newreqp":
+		return execNewreqP(ts[1:]), true
+	case "errpbytes":
+		e := packet.ErrorParseRTU{Message: "x", Packet: packet.ErrorResponseRTU{UnitID: uint8(atoi(ts[1])), Function: uint8(atoi(ts[2])), Code: uint8(atoi(ts[3]))}}
+		return hx(e.Bytes()), true
 	}
 	return "", false
 }
@@ -514,4 +520,24 @@ func execEncResp(ts []string) string {
 		return "BADOP"
 	}
 	return hx(r.Bytes())
+}
+
+// newreqp <pid> <newreq args>: the exported ProtocolID field of the constructed TCP request is set before encoding
+func execNewreqP(ts []string) string {
+	pid := uint16(atoi(ts[0]))
+	a := parseNewArgs(ts[1:])
+	r, err := construct(a)
+	if err != nil {
+		return errStr(err)
+	}
+	// every *RequestTCP type embeds packet.MBAPHeader: set the field through reflection
+	v := reflect.ValueOf(r)
+	if v.Kind() == reflect.Ptr {
+		if f := v.Elem().FieldByName("ProtocolID"); f.IsValid() && f.CanSet() {
+			f.SetUint(uint64(pid))
+		}
+	}
+	bs := r.Bytes()
+	n, lerr := packet.LooksLikeModbusTCP(bs, false)
+	return fmt.Sprintf("ok bytes=%s cls=n=%d %s", hx(bs), n, errStr(lerr))
 }
